@@ -84,6 +84,20 @@ class FindIdentifiers(_ast_util.NodeVisitor):
 
     def visit_ClassDef(self, node):
         self._add_declared(node.name)
+        # names read by the class statement come from the enclosing scope;
+        # names it binds are attributes of the class, not of that scope
+        for n in node.decorator_list + node.bases:
+            self.visit(n)
+        for kw in node.keywords:
+            self.visit(kw.value)
+        inf = self.in_function
+        self.in_function = True
+        local_ident_stack = self.local_ident_stack
+        self.local_ident_stack = set(local_ident_stack)
+        for n in node.body:
+            self.visit(n)
+        self.in_function = inf
+        self.local_ident_stack = local_ident_stack
 
     def visit_Assign(self, node):
         # flip around the visiting of Assign so the expression gets
@@ -110,25 +124,43 @@ class FindIdentifiers(_ast_util.NodeVisitor):
 
     def visit_FunctionDef(self, node):
         self._add_declared(node.name)
+        for n in node.decorator_list:
+            self.visit(n)
         self._visit_function(node, False)
 
     def visit_ListComp(self, node):
-        if self.in_function:
-            for comp in node.generators:
-                self.visit(comp.target)
-                self.visit(comp.iter)
-        else:
-            self.generic_visit(node)
+        self._visit_comprehension(node, [node.elt])
 
     visit_SetComp = visit_GeneratorExp = visit_ListComp
 
     def visit_DictComp(self, node):
-        if self.in_function:
-            for comp in node.generators:
-                self.visit(comp.target)
-                self.visit(comp.iter)
-        else:
+        self._visit_comprehension(node, [node.key, node.value])
+
+    def _visit_comprehension(self, node, elts):
+        if not self.in_function:
+            # directly in a template block the targets are still reported
+            # as names the block declares
             self.generic_visit(node)
+            return
+
+        # a comprehension is a scope of its own: its targets are not bound
+        # in the enclosing scope, and only the first iterable is evaluated
+        # there
+        self.visit(node.generators[0].iter)
+        inf = self.in_function
+        self.in_function = True
+        local_ident_stack = self.local_ident_stack
+        self.local_ident_stack = set(local_ident_stack)
+        for i, comp in enumerate(node.generators):
+            if i > 0:
+                self.visit(comp.iter)
+            self.visit(comp.target)
+            for if_ in comp.ifs:
+                self.visit(if_)
+        for elt in elts:
+            self.visit(elt)
+        self.in_function = inf
+        self.local_ident_stack = local_ident_stack
 
     def _expand_tuples(self, args):
         for arg in args:
@@ -144,12 +176,27 @@ class FindIdentifiers(_ast_util.NodeVisitor):
         # argument names in each function header so they arent
         # counted as "undeclared"
 
+        # defaults are evaluated in the enclosing scope
+        for default in node.args.defaults + node.args.kw_defaults:
+            if default is not None:
+                self.visit(default)
+
         inf = self.in_function
         self.in_function = True
 
         local_ident_stack = self.local_ident_stack
+        arguments = (
+            getattr(node.args, "posonlyargs", [])
+            + node.args.args
+            + node.args.kwonlyargs
+            + [
+                arg
+                for arg in (node.args.vararg, node.args.kwarg)
+                if arg is not None
+            ]
+        )
         self.local_ident_stack = local_ident_stack.union(
-            [arg_id(arg) for arg in self._expand_tuples(node.args.args)]
+            [arg_id(arg) for arg in self._expand_tuples(arguments)]
         )
         if islambda:
             self.visit(node.body)
